@@ -321,6 +321,7 @@ theorem trace_frozen (c : Cfg) (ar aq : Nat) (s : S) (l : Label) (h : Inv c ar a
     simp only [step]
     rw [terminateRaced_eq]
     simp [terminateL_eq, parked, hrun, hcl]
+  | lateResp k d t => simp [step, lateBackoff, backoff, hrun, hcl]
 
 /-- the worker is parked and only an event can wake it: which events are still possible -/
 theorem blocked_facts (c : Cfg) (ar aq : Nat) (s : S) (h : Inv c ar aq s) (hb : blocked s = true) :
